@@ -43,7 +43,7 @@ def undecided_bookkeeping(sg):
     indexed by position) instead of a variable: that bookkeeping is not followed -- no verdict."""
     filled = {ev.recv for ev, _ in sg.body if isinstance(ev, ir.Mut) and ev.method in ("append", "insert", "extend")}
     for ev, _ in sg.credits:
-        if any(t[0] == "sub" and t[1] in filled for t in ir.subterms(ev.value)):
+        if any(t[0] in ("sub", "tget") and t[1] in filled for t in ir.subterms(ev.value)):
             raise AnalysisError(f"{sg.fq}: the losses along the chain are kept in a container filled during the walk "
                                 f"({ir.show_nl(ev.value)[:100]}); this bookkeeping is not decided")
 
@@ -71,6 +71,10 @@ def telescope(sg, rule):
         run.fail(rule, "chain.dict", sg.where(uev.line), fq, f"importance update with {ir.show_nl(D)[:100] if D else None}",
                  "the importance trackers are not updated with the dict of per-feature chain contributions")
         return None
+    filled = {ev.recv for ev, _ in sg.body if isinstance(ev, ir.Mut) and ev.method in ("append", "insert", "extend")}
+    if any(t in filled for t in ir.subterms(D)):
+        raise AnalysisError(f"{sg.fq}: the contributions are computed after the walk from a container filled during it "
+                            f"({ir.show_nl(D)[:100]}); this bookkeeping is not decided")
     stores = [(k, v, c, e) for k, v, c, e in db.entries]
     in_chain = [x for x in stores if x[2] is not None and any(l is sg.L for l in x[2].loops)]
     ok = len(stores) == 1 and len(in_chain) == 1 and not db.init_items and stores[0][0] == sg.elem
